@@ -1,12 +1,29 @@
 // Explicit instantiations whose clang AST guides the extraction (T = double).
 #include "hep/mc.hpp"
-#include "hep/mc/generator_helper.hpp"
 #include <random>
 namespace vpinst {
-struct Integrand;
+// user code: only declarations (modelled by contract stubs)
+struct Fn {
+    double operator()(hep::mc_point<double> const&) const;
+    double operator()(hep::mc_point<double> const&, hep::projector<double>&) const;
+};
+typedef hep::integrand<double, Fn, false> Integrand;
+typedef hep::integrand<double, Fn, true> IntegrandD;
 }
 template void hep::accumulate<double>(double&, double&, double&, double);
 template class hep::vegas_pdf<double>;
 template double hep::vegas_icdf<double>(hep::vegas_pdf<double> const&, std::vector<double>&, std::vector<std::size_t>&);
 template hep::vegas_pdf<double> hep::vegas_refine_pdf<double>(hep::vegas_pdf<double> const&, double, std::vector<double> const&);
 template std::vector<double> hep::multi_channel_refine_weights<double>(std::vector<double> const&, std::vector<double> const&, double, double);
+template class hep::accumulator<double, false>;
+template class hep::accumulator<double, true>;
+template double hep::accumulator<double, false>::invoke<vpinst::Integrand, hep::mc_point<double>>(vpinst::Integrand&, hep::mc_point<double> const&);
+template double hep::accumulator<double, true>::invoke<vpinst::IntegrandD, hep::mc_point<double>>(vpinst::IntegrandD&, hep::mc_point<double> const&);
+template class hep::projector<double>;
+template class hep::mc_result<double>;
+template class hep::plain_result<double>;
+template class hep::distribution_parameters<double>;
+template class hep::distribution_result<double>;
+template class hep::mc_point<double>;
+template class hep::vegas_point<double>;
+template hep::mc_result<double> hep::create_result<double>(std::size_t, std::size_t, std::size_t, double, double);
